@@ -524,3 +524,5 @@ _amend("C03", "technique", "on a real node", "on a real node; differential of a 
 
 _amend("C17", "level_text", "Syncer unit: local / remote stub chains (highest shared block 0-12,",
        "Syncer unit: local / remote stub chains (highest shared block 0-12, in a fifth of the cases 497-537 so that the lowest of the 32 anchors is not genesis; the anchor question may be answered 'none' although anchors match - how a busy peer's error status reaches the finder - and the full scan must then still arrive at the highest shared block;")
+
+_amend("C01", "level_text", "failing and to-be-skipped transactions)", "failing and to-be-skipped transactions; in a fifth of the cases a fee-delegating contract that, through a name pointed at it by its creator, is itself the sender of fee-delegated calls)")
